@@ -22,11 +22,13 @@ pub struct DocParams {
     pub noncanonical: bool,
     /// include size-field width deviations
     pub width_devs: bool,
+    /// also enumerate the hand-written deep documents (five masters deep, followers at every level)
+    pub extras: bool,
 }
 
 impl DocParams {
     pub fn plain(max_nodes: usize) -> DocParams {
-        DocParams { max_nodes, globals: vec![], exclude: vec![], unknown_subsets: false, devs: 0, payload_classes: false, big_payloads: false, noncanonical: false, width_devs: false }
+        DocParams { max_nodes, globals: vec![], exclude: vec![], unknown_subsets: false, devs: 0, payload_classes: false, big_payloads: false, noncanonical: false, width_devs: false, extras: false }
     }
 }
 
@@ -79,6 +81,13 @@ pub fn for_each_doc(ctx: &mut Ctx, rs: &RefSpec, p: &DocParams, f: &mut dyn FnMu
         counter += 1;
         true
     });
+    if p.extras {
+        for (i, s) in spine_seqs().into_iter().enumerate() {
+            if ctx.mine(i as u64) && !s.iter().any(|x| p.exclude.contains(&x.1)) {
+                seqs.push(s);
+            }
+        }
+    }
     for seq in seqs {
         if ctx.should_stop() {
             return;
@@ -210,4 +219,40 @@ pub fn for_each_mutation(bytes: &[u8], boundaries: &[usize], alpha: &[u8], kinds
 
 pub fn doc_short(rs: &RefSpec, doc: &[Node]) -> String {
     doc.iter().map(|n| n.short(rs)).collect::<Vec<_>>().join(" ")
+}
+
+/// Hand-written deep documents over V: the full five-master spine, with followers at every enclosing level.
+pub fn spine_seqs() -> Vec<Seq> {
+    use crate::spec::*;
+    let spine: [(u64, u64); 5] = [(ID_ROOT, ID_U), (ID_M, ID_MU), (ID_N, ID_NU), (ID_K, ID_KU), (ID_L, ID_LB)];
+    let mut out: Vec<Seq> = Vec::new();
+    // bare spine down to depth d, then one follower leaf at level j (child of the master at depth j-1)
+    for d in 2..=5usize {
+        for j in 1..=d {
+            let mut s: Seq = (0..d).map(|i| (i as u8, spine[i].0)).collect();
+            s.push((d as u8, spine[d - 1].1));
+            if j < d {
+                s.push((j as u8, spine[j - 1].1));
+            }
+            out.push(s);
+        }
+    }
+    // spine with a leaf before and after the nested master at every level
+    let mut s: Seq = Vec::new();
+    for i in 0..5 {
+        s.push((i as u8, spine[i].0));
+        if i < 4 {
+            s.push((i as u8 + 1, spine[i].1));
+        }
+    }
+    s.push((5, ID_LB));
+    for i in (0..4).rev() {
+        s.push((i as u8 + 1, spine[i].1));
+    }
+    out.push(s);
+    // a new instance of an ancestor and a second root after a deep spine
+    out.push(vec![(0, ID_ROOT), (1, ID_M), (2, ID_N), (3, ID_K), (4, ID_KU), (2, ID_N), (3, ID_NU), (1, ID_M), (0, ID_ROOT), (1, ID_U)]);
+    out.push(vec![(0, ID_EBML), (1, ID_EU), (0, ID_ROOT), (1, ID_M), (2, ID_N), (3, ID_NU), (0, ID_EBML), (0, ID_ROOT)]);
+    out.push(vec![(0, ID_ROOT), (1, ID_P), (2, ID_PU), (1, ID_M), (2, ID_MU), (1, ID_P), (1, ID_M), (2, ID_N), (1, ID_P), (2, ID_PU)]);
+    out
 }
